@@ -368,6 +368,12 @@ def _shape_tag(v):
   return None
 
 
+# opt-in (set by a scenario whose tensors carry their real extents, reset for every case): several library models
+# abstract a convolution / matrix product by element-wise arithmetic on operands of different shapes, where the
+# check would be wrong
+STRICT_SHAPES = [False]
+
+
 def broadcast_shape(vals):
   """numpy-style broadcast of the extents recorded on symbolic tensor elements (None when none carries extents)."""
   shapes = [sh for sh in (_shape_tag(v) for v in vals) if sh is not None]
@@ -382,6 +388,9 @@ def broadcast_shape(vals):
       if j >= 0:
         x = sh[j]
         if not (isinstance(x, int) and x == 1):
+          if STRICT_SHAPES[0] and isinstance(x, int) and isinstance(d, int) and d != 1 and d != x:
+            # two concrete extents that do not broadcast: TensorFlow / numpy raise here
+            raise PyRaise("InvalidArgumentError", ("Incompatible shapes: %r" % (shapes,),))
           d = x
     out.append(d)
   return tuple(out)
